@@ -163,6 +163,23 @@ pub fn sr_rr_spaces(tier: Tier, seed: u64) -> Vec<CfgSpace> {
         }
     }));
 
+    // (2d) relations between fields: every field of the packet (and of every block) carrying the SAME walk value -
+    // sender SSRC = timestamps = counts = every block field - so that equal neighbours occur, not only distinct ones
+    let w32e = w32.clone();
+    let ne = w32e.len() as u64;
+    v.push(CfgSpace::new("sr-rr-all-fields-equal", ne * 2 * 3, move |idx| {
+        let x = w32e[(idx % ne) as usize];
+        let sr = (idx / ne) % 2 == 0;
+        let n = [1usize, 2, 3][(idx / ne / 2) as usize];
+        let rb = Rb { ssrc: x, fraction: x as u8, cum: x & 0x00FF_FFFF, ext_seq: x, jitter: x, lsr: x, dlsr: x };
+        let blocks = vec![rb; n];
+        if sr {
+            Pkt::Sr { ssrc: x, ntp: ((x as u64) << 32) | x as u64, rtp: x, pc: x, oc: x, blocks, pad: 0 }
+        } else {
+            Pkt::Rr { ssrc: x, blocks, pad: 0 }
+        }
+    }));
+
     // (3) fraction-lost x cumulative-lost share a word: full product
     let w24b = w24.clone();
     let nw = w24b.len() as u64;
